@@ -2,7 +2,8 @@
 use crate::ik::*;
 use crate::robots::*;
 use crate::util::*;
-use rs_opw_kinematics::kinematic_traits::Joints;
+use rs_opw_kinematics::kinematic_traits::{Joints, Kinematics};
+use rs_opw_kinematics::kinematics_impl::verif_hooks as H;
 use std::f64::consts::PI;
 
 pub fn main(tier: &str, seed: u64, n_override: Option<u64>) {
@@ -16,8 +17,9 @@ pub fn main(tier: &str, seed: u64, n_override: Option<u64>) {
         if idx % 3 == 0 { r.cons = Some(random_constraints(&mut rng, Some(&j))); }
         let k = r.solver();
         let entry: u8 = if r.p.dof == 5 { rng.below(4) as u8 } else { 2 + rng.below(2) as u8 };
-        let j6 = dy(rng.range(-3.0, 3.0), 12);
-        let prev: Joints = match rng.below(3) { 0 => j, 1 => std::array::from_fn(|i| j[i] + rng.range(-0.3, 0.3)), _ => std::array::from_fn(|_| rng.range(-2.0 * PI, 2.0 * PI)) };
+        // the caller's J6 is arbitrary: also beyond one turn, at the ends of [-pi, pi] and far away
+        let j6 = match rng.below(5) { 0 | 1 => dy(rng.range(-3.0, 3.0), 12), 2 => dy(rng.range(-10.0, 10.0), 12), 3 => (if rng.bool() { PI } else { -PI }) + dy(rng.range(-0.01, 0.01), 20), _ => dy(rng.range(-100.0, 100.0), 12) };
+        let prev: Joints = match rng.below(4) { 0 => j, 1 => std::array::from_fn(|i| j[i] + rng.range(-0.3, 0.3)), 2 => std::array::from_fn(|_| rng.range(-2.0 * PI, 2.0 * PI)), _ => std::array::from_fn(|_| dy(rng.range(-15.0, 15.0), 12)) };
         let sols = call_entry(&k, entry, &pose, &prev, j6);
         let want6 = match entry { 0 => 0.0, 2 => j6, _ => prev[5] };
         let mut direct = "ok".to_string(); let mut class = String::new();
@@ -33,7 +35,24 @@ pub fn main(tier: &str, seed: u64, n_override: Option<u64>) {
             let found = sols.iter().any(|s| (0..5).all(|i| ang_diff(s[i], j[i]) < 1e-6));
             if !found && direct == "ok" { direct = "fail".into(); class = if sols.is_empty() && r.p.dof == 5 && entry < 2 { format!("C06.dof5_robot_returns_nothing_entry{}", entry) } else { format!("C06.origin_missing_entry{}", entry) }; }
         }
+        // the 5-DOF kernel on this pose: traced branch table, position verdict of every finite branch (formed here), kernel output
+        let bare = r.bare();
+        let _ = H::take_trace();
+        let kernel5 = H::inverse_intern_5_dof(&bare, &pose, want6);
+        let theta5: Vec<[[f64; 5]; 8]> = H::take_trace().into_iter().filter_map(|e| if let H::Event::Theta5(t) = e { Some(t) } else { None }).collect();
+        let mut verd: Vec<String> = Vec::new(); let mut und = false;
+        if !theta5.is_empty() {
+            for row in theta5[0].iter() {
+                if row.iter().all(|x| x.is_finite()) {
+                    let cand: Joints = std::array::from_fn(|i| if i == 5 { want6 } else { let mut a = (row[i] + r.p.offsets[i]) * r.p.sign_corrections[i] as f64; while a > PI { a -= 2.0 * PI } while a < -PI { a += 2.0 * PI } a });
+                    let d = (pose.translation.vector - bare.forward(&cand).translation.vector).norm();
+                    if (d - H::DISTANCE_TOLERANCE).abs() < 1e-9 { und = true; }
+                    verd.push(format!("{{\"c\":{},\"ok\":{}}}", fxs(&cand), d <= H::DISTANCE_TOLERANCE));
+                }
+            }
+        }
+        let th5 = if theta5.is_empty() { "null".to_string() } else { format!("[{}]", theta5[0].iter().map(|row| fxs(&row.to_vec())).collect::<Vec<_>>().join(",")) };
         println!("{}", Obj::new().s("prop", "C06").i("case", idx as i64).raw("robot", &r.json()).i("entry", entry as i64).fs("j", &j)
-            .f("j6", j6).fs("prev", &prev).i("nsol", sols.len() as i64).s("direct", &direct).s("class", &class).done());
+            .f("j6", j6).f("j6used", want6).fs("prev", &prev).raw("theta5", &th5).raw("verdicts5", &format!("[{}]", verd.join(","))).raw("kernel5", &sols_json(&kernel5)).b("und5", und).i("nsol", sols.len() as i64).s("direct", &direct).s("class", &class).done());
     }
 }
